@@ -149,6 +149,10 @@ func RunGenChains(jobs [][]GenJob, nWorkers int) [][]GenResult {
 				}
 			}()
 			for i := range idx {
+				if w != nil && len(jobs[i]) > 0 && jobs[i][0].FreshProcess {
+					w.stop() // this chain wants a process nothing has run in yet
+					w = nil
+				}
 				if w == nil {
 					var err error
 					w, err = startWorker()
